@@ -99,13 +99,28 @@ func replayScalarCall(w *World, prop string, o *Obligation, rp *Replay) bool {
 	}
 	var args []string
 	var decls []string
+	hasString := false
 	for _, p := range fn.Params {
-		lit, ok := goLiteralFromModel(p.Type(), fx.params[p.Name()].S, o.Answer.Model)
+		if b, ok := p.Type().Underlying().(*types.Basic); ok && b.Info()&types.IsString != 0 {
+			hasString = true
+		}
+	}
+	if hasString {
+		// string parameters: a short witness, byte by byte (as for the panic recipe)
+		d, n, ok := modelArgs(o)
 		if !ok {
 			return false
 		}
-		args = append(args, p.Name())
-		decls = append(decls, fmt.Sprintf("\t%s := %s", p.Name(), lit))
+		decls, args = d, n
+	} else {
+		for _, p := range fn.Params {
+			lit, ok := goLiteralFromModel(p.Type(), fx.params[p.Name()].S, o.Answer.Model)
+			if !ok {
+				return false
+			}
+			args = append(args, p.Name())
+			decls = append(decls, fmt.Sprintf("\t%s := %s", p.Name(), lit))
+		}
 	}
 	nres := fn.Signature.Results().Len()
 	var rets []string
@@ -116,6 +131,31 @@ func replayScalarCall(w *World, prop string, o *Obligation, rp *Replay) bool {
 	if nres > 0 {
 		call = strings.Join(rets, ", ") + " := " + call
 	}
+	// a function of one string: when the solver's witness does not fail on the real code (the model of a
+	// function with a loop speaks about an arbitrary iteration, not about an input), the neighbourhood is
+	// searched - every string up to length 4 over a small alphabet of the bytes the contracts speak about
+	search := ""
+	if hasString && len(fn.Params) == 1 && nres == 1 {
+		pn := fn.Params[0].Name()
+		search = fmt.Sprintf(`
+	alphabet := []byte{' ', '\t', '\n', '\r', '\v', '\f', 'a', '<', '>', '&', '"', '\'', 0x80, 0}
+	var walk func(prefix []byte, depth int)
+	walk = func(prefix []byte, depth int) {
+		%s := string(prefix)
+		ret0 := %s(%s)
+		if !(%s) {
+			t.Fatalf("REPRODUCED by bounded search around the solver's model (strings up to length 4 over %%q): %s(%%q) = %%q violates the contract", alphabet, %s, ret0)
+		}
+		if depth == 4 {
+			return
+		}
+		for _, c := range alphabet {
+			walk(append(append([]byte{}, prefix...), c), depth+1)
+		}
+	}
+	walk(nil, 0)
+`, pn, fn.Name(), pn, fx.C.Flags["replay_go"], fn.Name(), pn)
+	}
 	body := fmt.Sprintf(`package twig
 
 import "testing"
@@ -125,11 +165,11 @@ func TestVerifReplay(t *testing.T) {
 	%s
 	_ = []interface{}{%s}
 	if !(%s) {
-		t.Fatalf("REPRODUCED: %s(%s) = %%v violates the contract", []interface{}{%s})
+		t.Fatalf("REPRODUCED: %%s violates the contract: result %%v", %s, []interface{}{%s})
 	}
-}
+%s}
 `, strings.Join(decls, "\n"), call, strings.Join(append(append([]string{}, args...), rets...), ", "),
-		fx.C.Flags["replay_go"], fn.Name(), strings.ReplaceAll(strings.Join(decls, "; "), "\t", ""), strings.Join(rets, ", "))
+		fx.C.Flags["replay_go"], strconv.Quote(fn.Name()+"("+strings.ReplaceAll(strings.Join(decls, "; "), "\t", "")+")"), strings.Join(rets, ", "), search)
 	out, failed := runOverlayTest(w, body, "TestVerifReplay")
 	rp.ReplayKind = "scalar_call"
 	rp.ReplayInput = map[string]any{"test_source": body}
